@@ -8,7 +8,10 @@ C05 — the property as an executable predicate over what was OBSERVED of one ru
                     (unless the caller cancelled)
   cause carried     `res=err:pK:…:<component>`: that component of pool K did fail in this run
   cancel            `res=ctx` only if the caller cancelled; after a cancel Run returns promptly
-                    (`lat=slow` fails, `lat=mid` is inconclusive)
+                    (`lat=slow` fails, `lat=mid` is inconclusive); once `Engine.Run` has seen its context done
+                    (`engc=1`) it returns the cancellation error, and a cancelled run reports success only if every
+                    pool had finished successfully on its own (`pK.main` contains `ok`)
+  no invented fail  a failure that carries no component error of this run (`res=other:…`) is a spurious failure
   guns closed       every created gun that is an `io.Closer` was closed exactly once
 -/
 import Pandora.Drv.Util
@@ -108,7 +111,8 @@ def gunCloseBad (pl : Plan) (o : Obs) : Option String :=
     | _, _ => some s!"p{i}:missing").head?
 
 def verdict (pl : Plan) (o : Obs) : String :=
-  if o.res.startsWith "PANIC" || o.res.startsWith "other" then s!"fail:crash:{o.res.take 60}"
+  if o.res.startsWith "PANIC" then s!"fail:crash:{o.res.take 60}"
+  else if o.res.startsWith "other" then s!"fail:spurious-failure:the run failed with {o.res.take 70} although no component error has this text"
   else if o.res == "runhang" then "fail:run-hang:Engine.Run did not return"
   else if o.wait != "ok" then s!"fail:wait-hang:Engine.Wait did not return after res={o.res.take 40}"
   else if o.leak != 0 then s!"fail:goroutine-leak:{o.leak} goroutines left after Engine.Wait returned"
@@ -132,6 +136,9 @@ def verdict (pl : Plan) (o : Obs) : String :=
     | some e => s!"fail:wrong-cause:{e}"
     | none =>
     if (o.res == "ctx" || o.res == "wrappedctx") && !o.canc then "fail:spurious-cancel:cancellation error without a cancel"
+    else if o.engc == "1" && o.res != "ctx" then s!"fail:cancel-lost:Engine.Run saw its context done but returned {o.res.take 40}"
+    else if o.canc && o.res == "ok" && o.pools.any (fun po => !po.main.contains "ok") then
+      "fail:cancel-lost:a cancelled run reported success although a pool had not finished successfully"
     else if o.res == "wrappedctx" then "fail:wrong-cause:cancellation reported as a wrapped component error"
     else if o.canc && o.lat == "slow" then "fail:cancel-slow:Engine.Run returned more than 1.5 s after the cancel"
     else match gunCloseBad pl o with
